@@ -123,12 +123,17 @@ func (e *Explorer) mergeDecide(m *mergeCtx, c *smt.Term) bool {
 	if e.pcFalse[c.ID] {
 		return false
 	}
+	// conditions settled by interval reasoning over the declared input ranges and
+	// the facts of the path condition (overflow guards, sign tests of bounded values)
+	if v, known := e.intervals().Decide(c); known {
+		return v
+	}
 	var d bool
 	if m.pos < len(m.dec) {
 		d = m.dec[m.pos]
 	} else {
 		if len(m.dec) > 40 {
-			panic(engineAbort{"abort-merge", "callee path too deep"})
+			panic(engineAbort{"abort-merge", "callee path too deep; last condition " + c.String()})
 		}
 		d = true
 		alt := append(append([]bool(nil), m.dec...), false)
@@ -149,9 +154,11 @@ type poison struct{ why string }
 // mergeEnv knows which cells were allocated inside the merged call; two different
 // fresh pointers are merged into a new cell holding the merged contents.
 type mergeEnv struct {
-	in    *interpreter
-	fresh map[*value]bool
-	depth int
+	in        *interpreter
+	fresh     map[*value]bool
+	freshMaps map[*hashmap]bool
+	outer     *mergeCtx
+	depth     int
 }
 
 func (me *mergeEnv) mergeVal(c *smt.Term, a, b value) value {
@@ -172,6 +179,22 @@ func (me *mergeEnv) mergeVal(c *smt.Term, a, b value) value {
 		b, ok := b.(structure)
 		if !ok || len(a) != len(b) {
 			return poison{"structure shape"}
+		}
+		// resource.Quantity: the scale of a zero amount is unobservable (Add, Sub, Cmp,
+		// AsScaledInt64 and Sign test the value first; only the text of a literal zero
+		// reads it), so a zero merged with a non-zero amount takes the other's scale.
+		// Without this every Max(x, zeroList) turns the scale into a symbolic ite and
+		// all later arithmetic carries both scale cases.
+		if isQuantityShape(a) && isQuantityShape(b) {
+			ia, ib := a[0].(structure), b[0].(structure)
+			za, zb := isConstZero(ia[0]), isConstZero(ib[0])
+			if za != zb && !isSym(ia[1]) && !isSym(ib[1]) && ia[1] != ib[1] {
+				if za {
+					a = structure{structure{ia[0], ib[1]}, a[1], a[2], a[3]}
+				} else {
+					b = structure{structure{ib[0], ia[1]}, b[1], b[2], b[3]}
+				}
+			}
 		}
 		out := make(structure, len(a))
 		for i := range a {
@@ -258,8 +281,32 @@ func (me *mergeEnv) mergeVal(c *smt.Term, a, b value) value {
 		}
 		return poison{"slice differs between merged paths"}
 	case *hashmap:
-		if bm, ok := b.(*hashmap); ok && bm == a {
+		bm, ok := b.(*hashmap)
+		if ok && bm == a {
 			return a
+		}
+		// two maps allocated on different callee paths with the same key sequence
+		// are merged entry-wise into a new map
+		if ok && a != nil && bm != nil && me.freshMaps[a] && me.freshMaps[bm] && a.len() == bm.len() && me.depth < 16 {
+			ea, eb := a.entries(), bm.entries()
+			nm := &hashmap{keyType: a.keyType, table: make(map[int][]*entry), creator: me.outer}
+			for k := range ea {
+				if !equalsNoSym(a.keyType, ea[k].key, eb[k].key) {
+					return poison{"map key order differs between merged paths"}
+				}
+				me.depth++
+				v := me.mergeVal(c, ea[k].value, eb[k].value)
+				me.depth--
+				if _, bad := v.(poison); bad {
+					return v
+				}
+				nm.insert(nil, ea[k].key, v)
+			}
+			me.freshMaps[nm] = true
+			if me.outer != nil {
+				me.in.mapLog = append(me.in.mapLog, nm)
+			}
+			return nm
 		}
 		return poison{"map differs between merged paths"}
 	case *ssa.Function, *closure:
@@ -297,6 +344,7 @@ func mergeCall(i *interpreter, caller *frame, callpos token.Pos, fn *ssa.Functio
 	var paths []mpath
 	var order []*value
 	allocMark := len(i.allocLog)
+	mapMark := len(i.mapLog)
 	seenAddr := map[*value]bool{}
 	work := [][]bool{{}}
 	e.res.Merges++
@@ -308,9 +356,15 @@ func mergeCall(i *interpreter, caller *frame, callpos token.Pos, fn *ssa.Functio
 			if outer == nil {
 				e.pendingInfeasible = nil
 			}
-			if ea, isEA := r.(engineAbort); isEA && ea.kind == "abort-merge" && outer == nil {
+			if ea, isEA := r.(engineAbort); isEA && ea.kind == "abort-merge" {
+				// at top level the call is then executed by forking; inside an enclosing
+				// merged call it is executed inline as part of the enclosing callee path
 				i.mergeBad[fn]++
 				e.res.MergeAborts++
+				if e.res.MergeAbortWhy == nil {
+					e.res.MergeAbortWhy = map[string]int{}
+				}
+				e.res.MergeAbortWhy[fn.String()+": "+ea.msg]++
 				res, ok = nil, false
 				return
 			}
@@ -413,7 +467,14 @@ func mergeCall(i *interpreter, caller *frame, callpos token.Pos, fn *ssa.Functio
 	if len(good) == 0 {
 		panic(engineAbort{"infeasible", "no feasible callee path in " + fn.String()})
 	}
-	me := &mergeEnv{in: i, fresh: map[*value]bool{}}
+	me := &mergeEnv{in: i, fresh: map[*value]bool{}, freshMaps: map[*hashmap]bool{}, outer: outer}
+	for _, hm := range i.mapLog[mapMark:] {
+		me.freshMaps[hm] = true
+		hm.creator = outer // from now on the map belongs to the enclosing path (or to nobody)
+	}
+	if outer == nil {
+		i.mapLog = i.mapLog[:mapMark]
+	}
 	owner := map[*value]int{}
 	for k, p := range good {
 		for _, a := range p.fresh {
@@ -478,3 +539,61 @@ func checkPoison(v value) {
 }
 
 var _ = types.Typ
+
+func equalsNoSym(t types.Type, x, y value) bool {
+	if hasSym(x, 0) || hasSym(y, 0) {
+		return false
+	}
+	defer func() { recover() }()
+	return equals(t, x, y)
+}
+
+func isConstZero(v value) bool {
+	x, ok := v.(int64)
+	return ok && x == 0
+}
+
+// isQuantityShape recognises k8s resource.Quantity values:
+// {i int64Amount{value int64, scale int32}, d infDecAmount{*inf.Dec}, s string, Format string}.
+func isQuantityShape(s structure) bool {
+	if len(s) != 4 {
+		return false
+	}
+	i, ok := s[0].(structure)
+	if !ok || len(i) != 2 {
+		return false
+	}
+	switch v := i[0].(type) {
+	case int64:
+	case sym:
+		if v.k != types.Int64 {
+			return false
+		}
+	default:
+		return false
+	}
+	switch v := i[1].(type) {
+	case int32:
+	case sym:
+		if v.k != types.Int32 {
+			return false
+		}
+	default:
+		return false
+	}
+	d, ok := s[1].(structure)
+	if !ok || len(d) != 1 {
+		return false
+	}
+	if _, ok := d[0].(*value); !ok {
+		return false
+	}
+	if _, ok := s[2].(string); !ok {
+		return false
+	}
+	switch s[3].(type) {
+	case string, poison:
+		return true
+	}
+	return false
+}
